@@ -1,6 +1,6 @@
 (* Properties_C14.v — C14: ciphertext linear operations act exactly linearly on phases, every dimension. *)
 From Coq Require Import ZArith List Lia.
-From TV Require Import Base.Int32 Ring.NegaRing Model.Lwe Model.Poly Model.Tlwe Model.Tgsw Proofs.Lwe Proofs.Tlwe Proofs.Tgsw Proofs.BlindRotate.
+From TV Require Import Base.Int32 Ring.NegaRing Model.Lwe Model.Poly Model.Tlwe Model.Tgsw Proofs.Lwe Proofs.Tlwe Proofs.Tgsw Proofs.BlindRotate Proofs.TlweOps.
 Import ListNotations.
 Local Open Scope Z_scope.
 
@@ -80,6 +80,21 @@ Theorem C14_tlwe_mulByXaiMinusOne : forall N, (0 < N)%nat -> forall key k, wf_tk
   eqNm N (PHv N key (map (xm1 a) c)) (vsub (Shn N a (PHv N key c)) (PHv N key c)).
 Proof. intros N HN key k Hk a c Hc Ha. split; [exact (mulXm1_ok N HN k a c Hc Ha)|exact (PHv_xm1 N HN key k Hk a c Hc Ha)]. Qed.
 Print Assumptions C14_tlwe_mulByXaiMinusOne.
+
+(* trivial samples, add-constant (tLweAddTTo) and add-polynomial-times-constant (tLweAddRTTo) on any component u <= k:
+   the body moves the phase by the added value, mask component u by minus the key polynomial s_u times it *)
+Theorem C14_tlwe_trivial_phase : forall N, (0 < N)%nat -> forall key k, wf_tkey N k key -> forall mu, lenN N mu ->
+  eqNm N (PHv N key (tlwe_trivial k mu)) (ofl mu).
+Proof. intros N Npos key k Hkey. exact (tlwe_trivial_phase N key k). Qed.
+Print Assumptions C14_tlwe_trivial_phase.
+Theorem C14_tlwe_add_constant_phase : forall N, (0 < N)%nat -> forall key k, wf_tkey N k key -> forall c u x, wf_tsample N k c -> (u <= k)%nat ->
+  eqNm N (PHv N key (tlwe_add_t c u x)) (vadd (PHv N key c) (if (u =? k)%nat then vscale x e0 else vopp (act N (nth u key []) (vscale x e0)))).
+Proof. exact tlwe_add_t_phase. Qed.
+Print Assumptions C14_tlwe_add_constant_phase.
+Theorem C14_tlwe_add_poly_times_constant_phase : forall N, (0 < N)%nat -> forall key k, wf_tkey N k key -> forall c u p x, wf_tsample N k c -> (u <= k)%nat -> lenN N p ->
+  eqNm N (PHv N key (tlwe_add_rt c u p x)) (vadd (PHv N key c) (if (u =? k)%nat then vscale x (ofl p) else vopp (act N (nth u key []) (vscale x (ofl p))))).
+Proof. exact tlwe_add_rt_phase. Qed.
+Print Assumptions C14_tlwe_add_poly_times_constant_phase.
 
 Example C14_nonvacuous :
   wf_tsample 4 1 [[1;2;3;4];[5;6;7;8]] /\ wf_tkey 4 1 [[1;0;1;1]] /\
